@@ -117,3 +117,16 @@ claim("C17", "dominance check of the no-uphill acceptance in both Newton-CG vari
       "on CG tolerances, trial point, halving, reset, abort and convergence conditions, and that under negative curvature the step "
       "is along the negative gradient. The trust-region minimiser's no-uphill clause depends on a numerical fact and is not decided.",
       TRUST, "DESIGN.md section 4, C17")
+
+claim("C22", "rank-taint over reaching definitions + name/receiver-resolved collective summaries over the call graph of the four MPI modules; branch-symmetry comparison of collective sequences; who-may-call scan for MPI reductions; structural check of per-sample seeding",
+      "Decides the SPMD structure behind task-count independence: no collective (direct or via a callee) is control dependent on "
+      "the rank unless both arms perform the same collectives, loops that contain collectives have rank-independent bounds, sums "
+      "across tasks only go through the deterministic pairwise reducer, and every per-sample draw happens inside a context seeded "
+      "by the sample's global index (mirrored pairs share the duplicated seed). Actual multi-process runs are not executed.", TRUST,
+      "DESIGN.md section 4, C22")
+
+claim("C26", "writer template vs reader regular expression (regex AST inclusion), index-extraction and reconstruction templates, dominance of the stale-sample barrier, loop-variable roles",
+      "Decides the naming and truncation protocol of persisted sample lists: every name the writer can produce is accepted by the "
+      "reader's pattern and yields the writer's index, the mean file and leftover temporary files are rejected, the file of index "
+      "n_samples is removed/refused before the first write and the reader takes the longest run from 0, files are named by the global "
+      "and filled by the local index. Mean/variance arithmetic and HDF5 contents are not decided.", TRUST, "DESIGN.md section 4, C26")
